@@ -37,6 +37,14 @@ ATOMS = [("RsV", "reg"), ("RtV", "reg"), ("RddV", "reg"), ("PuV", "reg"), ("NsN"
          ("0x10", "number"), ("7", "number"), ("1ULL", "number"), ("a", "identifier"), ("b", "identifier"), ("tmp", "identifier"), ("EA", "identifier"),
          ("mask_t", "identifier"), ("idx_t", "identifier"), ("int_x", "identifier"),
          ("P0", "explicit_reg"), ("R31", "explicit_reg"), ("P1_NEW", "explicit_reg"), ("HEX_REG_ALIAS_SP", "reg_alias"), ("HEX_REG_ALIAS_LR_NEW", "reg_alias")]
+# every architectural alias name (patches_macros.h, the corpus, the three 64-bit pairs), plain and .new: all of them are `reg_alias`
+ALIAS_NAMES = ["PC", "SP", "LR", "FP", "GP", "UGP", "USR", "LC0", "LC1", "SA0", "SA1", "M0", "M1", "CS0", "CS1", "FRAMEKEY", "FRAMELIMIT",
+               "UPCYCLE", "UPCYCLELO", "UPCYCLEHI", "PKTCOUNT", "PKTCNTLO", "PKTCNTHI", "UTIMER", "UTIMERLO", "UTIMERHI"]
+ALIAS_ATOMS = [("HEX_REG_ALIAS_" + n_ + sfx_, "reg_alias") for n_ in ALIAS_NAMES for sfx_ in ("", "_NEW")]
+EXPLICIT_ATOMS = [("R0", "explicit_reg"), ("R13", "explicit_reg"), ("R1:0", "explicit_reg"), ("P3", "explicit_reg"), ("P3_NEW", "explicit_reg"), ("C2", "explicit_reg"),
+                  ("C3:2", "explicit_reg"), ("M0", "explicit_reg"), ("R31_NEW", "explicit_reg")]
+# register numbers with a digit 4..9 (listed finding C17-explicit-register-digits: the character class [0-31] admits 0..3 only)
+EXPLICIT_HIGH = ["R15", "R4", "R29", "C6", "C9:8", "P3:0", "R7_NEW", "R28"]
 TYPES = ["int32_t", "uint8_t", "size4u_t", "int", "unsigned"]
 AMBIG = ["{ a = 1; { b = 1; } ; }", "{ a = b---c; }", "{ if (a) if (b) RdV = 1; else RdV = 2; }", "{ RdV = RsV&&RtV; }", "{ RdV = a & b && c; }",
          "{ RdV = (a)-b; }", "{ RdV = (int)-b; }", "{ RdV = a ? b : c ? d : e; }", "{ RdV = ({ int x = 1; x; }) + 1; }", "{ {} ; {} }"]
@@ -566,6 +574,12 @@ def run(tier: str, replay=None) -> int:
         for o in ("-", "+", "*", "&", "<<"):
             cases.append(["lp", ("atom", nm), "rp", ("op", o), ("atom", "b")])
             cases.append([("atom", "a"), ("op", "*"), "lp", ("atom", nm), "rp", ("op", o), ("atom", "b")])
+    # token classification of every alias name and of more explicit-register spellings, as left and as right operand
+    # (an explicit pair is not put at the start of a statement: `R1:0 + b;` is a labelled statement in C)
+    for nm, _cls in ALIAS_ATOMS + EXPLICIT_ATOMS:
+        if ":" not in nm:
+            cases.append([("atom", nm), ("op", "+"), ("atom", "b")])
+        cases.append([("atom", "a"), ("op", "*"), ("atom", nm)])
     n_directed = len(cases)
     for _ in range(n):
         tl = []
@@ -607,7 +621,7 @@ def run(tier: str, replay=None) -> int:
     sreps = drv.run([sx(["refparse-stmt"] + [tok_sx(t) for t in tl]) for tl in scases]) if scases else []
     viol = []
     evals, agree, rejected_both, amp_known = 0, 0, 0, 0
-    want_class = dict(ATOMS)
+    want_class = dict(ATOMS + ALIAS_ATOMS + EXPLICIT_ATOMS)
     samples = []
     for i, (txt, tl, pr) in enumerate(zip(texts, cases, parsed)):
         evals += 1
@@ -764,6 +778,29 @@ def run(tier: str, replay=None) -> int:
                     res.known(f"{k[0]['id']}: {k[0]['what']} [witness: {src}] ({k[0]['site']})")
                 else:
                     viol.append({"what": "dangling else binds to the outer if", "program": src})
+    # explicit registers whose number has a digit 4..9
+    hp = rc.parse_programs(["{ RdV = a * %s; }" % nm for nm in EXPLICIT_HIGH])
+    high_bad = []
+    for nm, pr in zip(EXPLICIT_HIGH, hp):
+        cl = []
+        if pr[0] == "ok":
+            e = pr[1].children[0]
+            from lark import Tree as _T
+            while isinstance(e, _T) and e.data in ("block_item", "block_item_list") and len(e.children) == 1:
+                e = e.children[0]
+            try:
+                lark_to_sx(e, cl)
+            except Exception:
+                pass
+        if not any(c_ == "explicit_reg" and a_ == nm for a_, c_ in cl):
+            high_bad.append((nm, pr[0] if pr[0] != "ok" else [c_ for a_, c_ in cl if a_ in (nm, nm.split(":")[0], nm.replace("_NEW", ""))]))
+    kh = [k for k in known_for(PROP) if k["id"] == "C17-explicit-register-digits"]
+    if high_bad and kh:
+        res.known(f"{kh[0]['id']}: {kh[0]['what']} [{len(high_bad)} of {len(EXPLICIT_HIGH)} spellings of this run, e.g. {high_bad[0][0]} -> {high_bad[0][1]}] ({kh[0]['site']})")
+    elif high_bad:
+        viol.append({"what": f"explicitly numbered registers are not classified as explicit registers: {high_bad[:4]}", "expr": "a * " + high_bad[0][0]})
+    elif kh:
+        res.notes.append("known finding C17-explicit-register-digits no longer reproduces")
     for k in [k for k in known_for(PROP) if k["id"] == "C17-ptr-regex-swallows-neighbours"]:
         wp = rc.parse_programs([k["witness"]])[0]
         ok_ = False
